@@ -638,6 +638,8 @@ async def e2e_get_links(ctx, tmp):
             return attrs(D if t == L else t)
 
         def lstat(self, path):
+            if state.get('lstat_fail') and path.startswith(b'/remotedir/'):
+                raise asyncssh.SFTPFailure('lstat refused')        # only the preserve step asks for these
             return attrs(self._type(path))
 
         def realpath(self, path):
@@ -664,6 +666,7 @@ async def e2e_get_links(ctx, tmp):
             ([(b'x', L)], {b'x': ob + b'/victim'}, True),                   # preserve must not follow the new link
             ([(b'x', L)], {b'x': b'../../outside/victim'}, True),
             ([(b'x', L), (b'y', D), (b'x', D)], {b'x': b'../../outside/dir'}, True),
+            ([(b'x', L), (b'x', D)], {b'x': ob + b'/dir'}, True),           # with an error handler and failing lstat
         ]
         n = 150 if ctx.tier == 'thorough' else 25
         for k in range(len(fixed) + n):
@@ -688,10 +691,16 @@ async def e2e_get_links(ctx, tmp):
                     state['listing'][b'/remotedir/' + nm] = [(b'evil', R), (b'sub', D)]
                     state['listing'][b'/remotedir/' + nm + b'/sub'] = [(b'evil2', R)]
             state['target'] = {b'/remotedir/' + nm: tg for nm, tg in targets.items()}
+            # a caller that collects errors instead of aborting, and a server that refuses the attribute query of
+            # the preserve step: the copy goes on after an error, and must still never go through a new link
+            handler = (k == len(fixed) - 1) or (k >= len(fixed) and rng.random() < 0.4)
+            state['lstat_fail'] = handler and preserve and (k < len(fixed) or rng.random() < 0.6)
+            collected = []
             before = snapshot(base)
             err = None
             try:
-                await sftp.get(b'/remotedir', dst, recurse=True, preserve=preserve, sparse=False)
+                await sftp.get(b'/remotedir', dst, recurse=True, preserve=preserve, sparse=False,
+                               error_handler=(collected.append if handler else None))
             except (asyncssh.SFTPError, OSError, ValueError) as e:
                 err = type(e).__name__
             nrun += 1
@@ -715,11 +724,12 @@ async def e2e_get_links(ctx, tmp):
                     return ('content ' if b[2] != a[2] else '') + ('mode %o->%o ' % (b[0] & 0o7777, a[0] & 0o7777) if b[0] != a[0] else '') + \
                         ('mtime' if b[3] != a[3] else '')
                 ctx.failing_input(
-                    f'recursive SFTP get (preserve={preserve}) to {dst!r} from a server listing {shape!r} with link '
+                    f'recursive SFTP get (preserve={preserve}, error_handler={handler}, lstat refused={state["lstat_fail"]}) to {dst!r} from a server listing {shape!r} with link '
                     f'targets {dict((k_.decode(), v.decode()) for k_, v in targets.items())!r} changed outside the '
                     f'destination: {[(p, what(p)) for p in out[:3]]!r}',
                     {'kind': 'e2e_get_links', 'listing': [[nm.decode(), t] for nm, t in top],
                      'targets': {k_.decode(): v.decode('latin-1') for k_, v in targets.items()}, 'preserve': preserve,
+                     'error_handler': handler, 'lstat_fail': state['lstat_fail'],
                      'changed_outside': out[:3]})
             shutil.rmtree(work, ignore_errors=True)
     finally:
@@ -830,6 +840,11 @@ async def e2e_symlinks(ctx, tmp):
         [('symlink', b'../jail-backup/secret.txt', b'/a/l'), ('rename', b'/a/l', b'/l')],
         [('symlink', b'../jail-backup/secret.txt', b'/a/l'), ('posix_rename', b'/a/l', b'/l')],
         [('symlink', b'../../jail-backup', b'/a/b/l'), ('rename', b'/a/b/l', b'/l')],
+        # moving a relative link ONTO an existing link (valid or dangling): where the moved link will sit is the
+        # destination's directory, not where the old destination link pointed
+        [('symlink', b'../outside/secret.txt', b'/a/b/l'), ('symlink', b'a/b/f', b'/s'), ('posix_rename', b'/a/b/l', b'/s')],
+        [('symlink', b'../outside/secret.txt', b'/a/b/l'), ('symlink', b'a/b/nothing', b'/d'), ('rename', b'/a/b/l', b'/d')],
+        [('symlink', b'../../outside', b'/a/b/c/l'), ('symlink', b'a/b/c/x', b'/s'), ('posix_rename', b'/a/b/c/l', b'/s')],
     ]
     for k in range(nseq + len(corpus)):
         fixed = corpus[k] if k < len(corpus) else None
@@ -837,6 +852,8 @@ async def e2e_symlinks(ctx, tmp):
         jail = os.path.join(base, 'jail')
         os.makedirs(os.path.join(jail, 'a', 'b', 'c'))
         os.makedirs(os.path.join(base, 'outside'))
+        with open(os.path.join(base, 'outside', 'secret.txt'), 'w') as f_:
+            f_.write('outside the root')
         os.makedirs(os.path.join(base, 'jail-backup'))
         with open(os.path.join(base, 'jail-backup', 'secret.txt'), 'w') as f_:
             f_.write('outside the root')
@@ -891,6 +908,8 @@ async def e2e_symlinks(ctx, tmp):
                     # move an existing link (or a directory holding one) somewhere else
                     src = rng.choice(links + [posixpath.dirname(l) for l in links if posixpath.dirname(l) != b'/'])
                     dstp = posixpath.join(rng.choice([b'/', b'/a', b'/a/b']), b'm%d' % step)
+                    if rng.random() < 0.3:
+                        dstp = rng.choice(links)            # onto an existing link (posix_rename replaces it)
                     ren = rng.choice(['rename', 'posix_rename'])
                     src_is_link = os.path.islink(os.path.join(jail, src.decode().lstrip('/')))
                     ops.append((ren.encode() + (b' ' if src_is_link else b' dir ') + src, dstp))
